@@ -160,12 +160,12 @@ def report(ctx, prop, hists, recs, aborts, fails, origin_of):
 # ------------------------------------------------------------------------------------------- M
 def model_check(ctx, prop, bases, quick):
     """TLC explores Lmm.tla itself (histories merged): reference invariants; for C17 also the bookkeeping mirror."""
-    par = L.params(maxc=3, minc=2, maxv=4, len=4 if quick else 6, cbounds=[0, 2, 6], vbounds=[-1, 1], pens=[0, 1, 2],
+    par = L.params(maxc=3, minc=2, maxv=4, len=4 if quick else 5, cbounds=[0, 2, 6], vbounds=[-1, 1], pens=[0, 1, 2],
                    ws=[1, 2], lims=[-1, 1], caps=[2], bases=[L.strip(b) for b in bases])
     pf = os.path.join(ctx.scratch, "mc_params.json")
     json.dump(par, open(pf, "w"))
     r = vlib.tlc(os.path.join(L.LSPEC, "LmmGen.tla"), cfg=os.path.join(L.LSPEC, "LmmMC_ref.cfg"), env={"LMM_PARAMS": pf},
-                 timeout=900 if quick else 2400, workers=8, xmx="4g")
+                 timeout=900 if quick else 2400, xmx="4g")
     ctx.add_tlc(r)
     ctx.cov["mc_reference"] = {"status": r.status, "distinct": r.distinct, "generated": r.generated, "depth": r.diameter,
                                "wall_s": round(r.wall, 1),
@@ -176,7 +176,7 @@ def model_check(ctx, prop, bases, quick):
     guided = []
     if prop == "C17":
         r = vlib.tlc(os.path.join(L.LSPEC, "LmmGen.tla"), cfg=os.path.join(L.LSPEC, "LmmMC_mirror.cfg"),
-                     env={"LMM_PARAMS": pf}, timeout=900 if quick else 2400, workers=8)
+                     env={"LMM_PARAMS": pf}, timeout=900 if quick else 2400, xmx="4g")
         ctx.add_tlc(r)
         ctx.cov["mc_mirror"] = {"status": r.status, "what": r.what[:80], "distinct": r.distinct, "generated": r.generated,
                                 "wall_s": round(r.wall, 1), "invariant": "ModifiedSetComplete"}
@@ -214,7 +214,7 @@ def visited_model(ctx, quick):
     res = {}
     for name in ("fixed", "code"):
         r = vlib.tlc(os.path.join(L.LSPEC, "Visited.tla"), cfg=os.path.join(L.LSPEC, "Visited_%s%s.cfg" % (name, suffix)),
-                     timeout=900 if quick else 2400, workers=4)
+                     timeout=900 if quick else 2400, xmx="2g")
         ctx.add_tlc(r)
         res[name] = {"status": r.status, "what": r.what[:60], "distinct": r.distinct, "generated": r.generated,
                      "wall_s": round(r.wall, 1)}
@@ -233,7 +233,7 @@ def run(ctx, prop):
     _, seam = L.driver()
     # VERIF_LMM_SCALE (default 1) scales the number of random histories: only meant for experiments on a loaded machine
     scale = float(os.environ.get("VERIF_LMM_SCALE", "1"))
-    n_rand = max(12, int(({"C15": 300, "C16": 300, "C17": 260, "C18": 300}[prop] if quick else 3000) * scale))
+    n_rand = max(12, int(({"C15": 300, "C16": 300, "C17": 260, "C18": 300}[prop] if quick else 2000) * scale))
     t0 = time.time()
     # ---- G: histories from the specification
     reg_names = sorted(L.REGRESSION)
@@ -260,7 +260,7 @@ def run(ctx, prop):
         fam["wrap"] = [h for h in fam["wrap"] if any(o["op"] == "ff" for o in h)]
     pool = [h for h in rnd if len([o for o in h if o["op"] == "solve"]) >= 2]
     ctx.rng.shuffle(pool)
-    nb = 2 if quick else 12
+    nb = 2 if quick else 8
     bases_r = [b for b in (cut_after_solve(h, ctx.rng) for h in pool[:nb]) if b]
     ext_bases = bases + bases_r
     ext, r_ext = L.extensions(ctx, ext_bases, ext_params(prop, par), "ext", timeout=900 if quick else 2400)
@@ -322,11 +322,12 @@ def run(ctx, prop):
     ctx.cov["precision_ppb"] = hdr["prec"]
     ctx.cov["rule"] = ("histories = sequences of lmm::System API operations generated by TLC from spec/lmm/Lmm.tla: regression "
                        "cases, %d seeded `-simulate` histories of %d operations (<= %d constraints, <= %d variables), every "
-                       "extension by 2 operations + solve of %d base systems, TLC's counter-example of the bookkeeping mirror; "
+                       "extension by 2 operations + solve of %d base systems%s; "
                        "each is replayed on MaxMin selective/full, a fresh system per solve, BMF and FairBottleneck and "
                        "judged by TLC (LmmTrace.tla) on the implementation's values; non-trivial for %s = %s; distinct by "
                        "canonical hash of the operation sequence" %
-                       (n_rand, par["len"], par["maxc"], par["maxv"], ctx.cov["exhaustive_extension_bases"], prop,
+                       (n_rand, par["len"], par["maxc"], par["maxv"], ctx.cov["exhaustive_extension_bases"],
+                        ", the wrap-around family, TLC's counter-example of the bookkeeping mirror" if prop == "C17" else "", prop,
                         {"C15": "some solve gives a positive rate to >= 2 variables", "C16": "some solve gives a positive rate to >= 2 variables",
                          "C17": ">= 2 solves with positive rates (modifications in between)",
                          "C18": "some variable was staged by the implementation"}[prop]))
